@@ -1,12 +1,13 @@
 // C11 — every address maps to exactly one valid shard.
 //
 // Exhaustive input enumeration on the real sharding.NewMultiShardCoordinator:
-//   (A) every shard count 1..256 (core.MaxNumShards) x every address of the shape alphabet
-//       (17 lengths x 28 prefix classes) x every value of the trailing byte (the only byte the
-//       coordinator reads when numberOfShards <= 256), plus shard counts 257 and 65536 with
-//       the two trailing bytes enumerated completely and (thorough) 65537 with three;
-//   (B) SameShard over all ordered pairs of one representative per (shape, trailing byte);
-//   (C) CommunicationIdentifier over all ordered pairs of shard ids.
+//
+//	(A) every shard count 1..256 (core.MaxNumShards) x every address of the shape alphabet
+//	    (17 lengths x 28 prefix classes) x every value of the trailing byte (the only byte the
+//	    coordinator reads when numberOfShards <= 256), plus shard counts 257 and 65536 with
+//	    the two trailing bytes enumerated completely and (thorough) 65537 with three;
+//	(B) SameShard over all ordered pairs of one representative per (shape, trailing byte);
+//	(C) CommunicationIdentifier over all ordered pairs of shard ids.
 //
 // Oracle = the property statement and nothing more:
 //   - ComputeId(a) < numberOfShards, or == MetachainShardId only if an independently written
@@ -18,6 +19,7 @@
 //   - CommunicationIdentifier(self=a,dest=b) == (self=b,dest=a), and distinct unordered pairs
 //     give distinct identifiers (AllShardId excluded from injectivity: it is the broadcast id
 //     and collapses by design; symmetry is still checked for it).
+//
 // Which of the configured shards an address lands in is NOT judged (the statement does not
 // fix the assignment function); the mask arithmetic is only used to count non-trivial cases.
 package main
@@ -146,9 +148,9 @@ func shardName(id uint32) string {
 }
 
 type env struct {
-	c    *mc.Ctx
-	col  *collector
-	cls  []class
+	c   *mc.Ctx
+	col *collector
+	cls []class
 }
 
 // checkAddr evaluates the single-address oracles; returns the id (and false when it panicked).
